@@ -63,7 +63,7 @@ func biasFor(prop string) map[string]int {
 	case "C06":
 		b["dseq.prefix-family"] = 70
 		b["clb.lost"] = 15
-		b["busy"] = 25
+		b["busy"] = 50
 		b["CreateLease"] = 16
 		b["WithdrawLease"] = 10
 		b["fault.wrongsigner"] = 25
@@ -84,7 +84,10 @@ func biasFor(prop string) map[string]int {
 		b["fault.crash"] = 5
 		b["UpdateProvider"] = 8
 		b["up.busiest"] = 60
-		b["busy"] = 50
+		b["busy"] = 40
+		b["cd.multigroup"] = 1
+		b["spread"] = 70
+		b["CloseDeployment"] = 7
 		b["grp.hasreq"] = 30
 		b["CreateLease"] = 16
 		b["CreateBid"] = 18
@@ -212,6 +215,8 @@ func (e Engine) Execute(r *core.Run) *core.Violation {
 	t := &txRunner{r: r, w: w, L: L, chk: chk, g: g}
 	if bias["busy"] > 0 && r.Bool(bias["busy"], "knob.busy-provider") {
 		g.busy = w.ActorsOf("provider")[0]
+	} else if bias["spread"] > 0 && r.Bool(bias["spread"], "knob.spread-providers") {
+		g.spread = true
 	}
 
 	maxTx := 20 + r.Choose(100, "knob.maxtx")
@@ -340,15 +345,15 @@ func (Engine) Describe(property string) core.Description {
 			"staking/mint/distribution/gov/ibc Begin/EndBlockers (idle)"},
 		Stub:        []string{"Tendermint consensus/p2p/mempool: absent, the simulator is the block proposer"},
 		Assumptions: []string{"fees and gas prices are zero in simulation", "store-level (IAVL/tm-db) disk faults are out of scope", "sampling: held on everything explored, not a proof"},
-		QuickRuns:   480, ThoroughRuns: 30000, QuickBudgetS: 150, ThoroughBudget: 1500,
+		QuickRuns:   800, ThoroughRuns: 30000, QuickBudgetS: 150, ThoroughBudget: 1500,
 		SimTimeUnit: "blocks",
 	}
 	switch property {
 	case "C07":
-		d.QuickRuns, d.ThoroughRuns = 240, 12000
+		d.QuickRuns, d.ThoroughRuns = 320, 12000
 		d.ReplayAttempts = 12
 	case "C17":
-		d.QuickRuns, d.ThoroughRuns = 320, 16000
+		d.QuickRuns, d.ThoroughRuns = 480, 16000
 	}
 	d.RequiredProbes = requiredProbes(property)
 	return d
